@@ -14,7 +14,10 @@ man = {
     "setup_cmd": "./check --setup",
     "hooks": {
         "guard": "embedded_graphics_verif",
-        "enable": "RUSTFLAGS=\"--cfg embedded_graphics_verif\" (set by ./check for the Kani build and the native replay build)",
+        "enable": "RUSTFLAGS=\"--cfg embedded_graphics_verif\" (set by ./check for the Kani build and the native replay build); the second "
+                  "build of C20 additionally sets --cfg embedded_graphics_verif_mock8, which selects an added `const SIZE: usize = 8` for "
+                  "MockDisplay instead of the original line (which is kept unchanged under cfg(not(..))). Relative to the pinned source all "
+                  "hook commits only add lines.",
         "baseline_off_cmd": "cd /repo && cargo test --workspace --no-fail-fast --offline",
         "source_commits": hook_commits,
         "add_only": True,
